@@ -10,6 +10,7 @@ ENTRY_ITEMS = [
          ensures=[
              ('stores_value', ['C01', 'C11'], 'e.value == value'),
              ('zero_hits', ['C08'], 'e.frequency == 0'),
+             ('fresh', ['C06', 'C11'], 'taken_now(e.inserted_at)'),
          ]),
     dict(kind='fn', file=ENTRY, impl=r'^impl<R> CacheEntry<R>$', name='is_expired', label='CacheEntry::is_expired', ret='b',
          ensures=[
